@@ -231,6 +231,20 @@ def contains_yield(stmts):
   return False
 
 
+def is_generator(fdef):
+  """does the function itself (not a nested def) contain a yield?"""
+  def walk(n):
+    for c in ast.iter_child_nodes(n):
+      if isinstance(c, (ast.FunctionDef, ast.AsyncFunctionDef, ast.Lambda, ast.ClassDef)):
+        continue
+      if isinstance(c, (ast.Yield, ast.YieldFrom)):
+        return True
+      if walk(c):
+        return True
+    return False
+  return walk(fdef)
+
+
 class Engine:
 
   def __init__(self, globals_=None, quick_prune=True):
@@ -1374,11 +1388,61 @@ class Engine:
     self.run_loop(ctx, s, spec, idx, header, cond, lambda c: None,
                   lambda c: None, None)
 
+  def call_with_func(self, ctx, e, f):
+    """e_Call for a call expression whose function value is already evaluated."""
+    args, kwargs = [], {}
+    for a in e.args:
+      if isinstance(a, ast.Starred):
+        args.extend(self.concrete_items(ctx, self.eval(ctx, a.value)))
+      else:
+        args.append(self.eval(ctx, a))
+    for k in e.keywords:
+      v = self.eval(ctx, k.value)
+      if k.arg is None:
+        kwargs.update(self.concrete_dict(ctx, v))
+      else:
+        kwargs[k.arg] = v
+    ctx.lineno = e.lineno
+    return self.call_value(ctx, f, args, kwargs)
+
+  def for_over_generator(self, ctx, s, f):
+    """`for x in gen(...): BODY` with gen a generator function of the source: the generator runs under its
+    own loop contracts and BODY is executed at each of its yields (the loop is the generator's loop)."""
+    saved = ctx.on_yield
+    depth = len(ctx.stack)
+
+    def on_y(c, v):
+      c.on_yield = saved
+      tail = c.stack[depth:]      # the generator's frames: the loop body runs in the frame of the for statement
+      del c.stack[depth:]
+      try:
+        self.assign(c, s.target, v)
+        try:
+          self.exec_block(c, s.body)
+        except ContinueSig:
+          pass
+        except BreakSig:
+          raise Unsupported('break out of a loop over a generator')
+      finally:
+        c.stack.extend(tail)
+        c.on_yield = on_y
+    ctx.on_yield = on_y
+    try:
+      self.call_with_func(ctx, s.iter, f)
+    finally:
+      ctx.on_yield = saved
+
   def s_For(self, ctx, s):
     spec, idx, header = self.loop_spec(ctx, s)
     if s.orelse:
       raise Unsupported('for-else')
-    src = self.eval(ctx, s.iter)
+    if isinstance(s.iter, ast.Call) and not isinstance(s.iter.func, ast.Attribute):
+      f = self.eval(ctx, s.iter.func)
+      if isinstance(f, FuncV) and is_generator(f.fdef):
+        return self.for_over_generator(ctx, s, f)
+      src = self.call_with_func(ctx, s.iter, f)
+    else:
+      src = self.eval(ctx, s.iter)
     if hasattr(src, 'pointwise_binding'):
       return self.run_pointwise(ctx, s, src)
     it = self.iterate(ctx, src)
@@ -1966,7 +2030,7 @@ def _b_isinstance(ctx, v, t):
     if isinstance(v, Ref) and isinstance(v.cell(ctx), ObjCell):
       c = v.cell(ctx).cls
       while c is not None:
-        if c is t:
+        if c is t or c.name == t.name:
           return True
         c = c.bases[0] if c.bases else None
       return False
